@@ -231,6 +231,7 @@ def run(ctx):
     parallel_subscripts_are_bounded(ctx)
     shared_manifests_are_not_freed(ctx)
     using_walks_carry_a_visited_set(ctx)
+    variable_evaluation_is_guarded(ctx)
     instance_substitution_registers_first(ctx)
     containment_recursion(ctx)
     construction_stacks(ctx)
@@ -2246,3 +2247,38 @@ def shared_manifests_are_not_freed(ctx):
                    "the manifest is also taken off _manifest_stack here" if unstack else "a manifest that `#pragma push_macro` may still hold is freed")
     ctx.ob("R15.29", "CPPPreprocessor|no-manifest-freed-while-shared", True, "src/cppparser/cppPreprocessor.cxx", "%d functions of CPPPreprocessor examined" % n)
     ctx.floor("R15.29", "functions of CPPPreprocessor examined", n, 60)
+
+
+def variable_evaluation_is_guarded(ctx):
+    """R15.30: CPPExpression::evaluate() computes the value of a `const`/`constexpr` variable by evaluating its
+    initializer.  Inside a class template a member's initializer may name the member itself (`v = N * F<N-1>::v` resolves
+    to the template's own v), so that step can come back to where it started.  In the T_variable arm every
+    `_initializer->evaluate()` is therefore reached only after the variable was entered in an in-progress set
+    (`insert(...).second` true), and the set forgets it afterwards.  (F-C15ab: stack overflow / endless tail call.)"""
+    db = ctx.db
+    ctx.rule("R15.30", "in CPPExpression::evaluate, `_u._variable->_initializer->evaluate()` is reached only where `<static set>.insert(_u._variable).second` was true, and the variable is erased from the set afterwards")
+    fs = [g for g in db.functions if g.name == "CPPExpression::evaluate"]
+    if not fs:
+        ctx.broken("R15.30: CPPExpression::evaluate not found")
+        return
+    f = fs[0]
+    rec = [c for c in f.walk() if c.get("k") == "call" and c.get("f") == "CPPExpression::evaluate" and "this" in c and
+           any(z.get("k") == "mem" and (z.get("n") or "").endswith("CPPInstance::_initializer") for z in walk(c["this"])) and
+           any(z.get("k") == "mem" and (z.get("n") or "").endswith("::_variable") for z in walk(c["this"]))]
+
+    def entered(atom, truth):
+        a = strip_casts(peel(atom)) if atom is not None else None
+        if not (truth and a is not None and a.get("k") == "mem" and (a.get("n") or "").endswith("pair::second")):
+            return False
+        ins = strip_casts(peel(a.get("b")))
+        return ins is not None and ins.get("k") == "call" and callee_short(ins) == "insert" and \
+            any(z.get("k") == "mem" and (z.get("n") or "").endswith("::_variable") for z in walk(ins.get("a", [{}])[0]))
+    e = G.edges_where(f, entered)
+    erases = [c for c in f.walk() if c.get("k") == "call" and callee_short(c) == "erase" and c.get("a") and
+              any(z.get("k") == "mem" and (z.get("n") or "").endswith("::_variable") for z in walk(c["a"][0]))]
+    for i, c in enumerate(rec):
+        ok = bool(e) and G.gated(f, c, e) and bool(erases)
+        ctx.ob("R15.30", "evaluate|variable-initializer#%d|in-progress-guard" % i, ok, f.loc(c),
+               "the initializer is evaluated only for a variable that is not already being evaluated" if ok else
+               "the initializer of a variable is evaluated with no record that the variable is being evaluated")
+    ctx.floor("R15.30", "evaluations of a variable's initializer", len(rec), 1)
